@@ -95,6 +95,14 @@ func bgAnalyseFn(c *Ctx, fn *ssa.Function, name string) *bgInfo {
 				bi.spawned = append(bi.spawned, f)
 				bi.spawnHow[f] = "go"
 				bi.spawnAt[f] = x
+			} else if f != nil && f.Blocks != nil && f.Parent() == nil && !token.IsExported(f.Name()) && rootFn(f).Pkg == rootFn(fn).Pkg {
+				// go out.forward(ctx, i): the goroutine's body is an unexported function of the package; what the literal would
+				// have captured arrives as arguments and receiver fields
+				if bi.spawnAt[f] == nil {
+					bi.spawned = append(bi.spawned, f)
+					bi.spawnHow[f] = "go"
+					bi.spawnAt[f] = x
+				}
 			}
 		case *ssa.Call:
 			if cal := x.Call.StaticCallee(); cal != nil && fname(cal) == "Go" && cal.Pkg != nil && strings.HasSuffix(cal.Pkg.Pkg.Path(), "errgroup") && len(x.Call.Args) == 2 {
